@@ -16,6 +16,8 @@ THEOREMS = ["binAssign_var_correct", "binAssign_fixed_correct", "assign_eq_binOf
             "sanitize_order_independent", "sanitize_one_based", "sanitize_rejects_outside_partial",
             "sanitize_rejects_outside_fails", "sanitizeWith_sim", "groupCells_perm", "groupCells_sorted",
             "countAt_groupCells", "totalCount_groupCells", "mem_groupCells_keys", "countAt_groupFirst",
+            "sumAt_groupFirst", "groupFirst_keysNodup", "groupFirst_perm_groupCells", "aggregateRecords_sort_irrelevant",
+            "groupFirst_keys",
             "pixels_count_once", "pixels_reflect_upper", "tableOK_of_valid", "rows_flatMap_eq", "tabix_correct"]
 LEVELS = {"records_top": "top", "records_atlength": "top", "records_unit": "unit", "pixels_top": "top", "pixels_unit": "unit",
           "aggregate_unit": "unit", "cli_pairs": "top", "cli_load": "top", "cli_tabix": "top", "constants": "unit"}
